@@ -118,7 +118,8 @@ def finishInG (s : AState ρ σ) (mask : List Bool) (fuel : Nat) : AState ρ σ 
   let r := stepsIn inc (RNum.ofInt endIdx) fuel t0 s.lastIndex
   let ps := r.1
   if r.2.2 then
-    (s, if s.kind.isSinc then .panic "wave_out[n]" else .abort "get_unchecked_mut(n)")
+    (s, (if mask.any id then (if s.kind.isSinc then .panic "wave_out[n]" else .abort "get_unchecked_mut(n)")
+         else .panic "position diverges"))
   else
     match evalChannels s s.buf mask ps with
     | .error f => (s, faultOutcome f)
